@@ -274,8 +274,21 @@ class Evaluator:
                 env[st.target.id] = _BIN[type(st.op)](cur, self.ev(st.value, env))
             elif isinstance(st, ast.If):
                 r = self.run(st.body if self.ev(st.test, env) else st.orelse, env)
-                if r[0] == "return":
+                if r[0] in ("return", "break", "continue"):
                     return r
+            elif isinstance(st, ast.For) and not st.orelse:
+                for item in self.ev(st.iter, env):
+                    self._tick()
+                    self._bind(st.target, item, env)
+                    r = self.run(st.body, env)
+                    if r[0] == "return":
+                        return r
+                    if r[0] == "break":
+                        break
+            elif isinstance(st, ast.Break):
+                return ("break", None)
+            elif isinstance(st, ast.Continue):
+                return ("continue", None)
             elif isinstance(st, ast.Return):
                 return ("return", self.ev(st.value, env) if st.value is not None else None)
             elif isinstance(st, ast.Pass):
